@@ -19,6 +19,40 @@ fn w(v: marginfi_type_crate::types::WrappedI80F48) -> i128 {
 }
 
 /// independent coherence predicate; returns the first violated clause
+/// the coherence predicate plus the leverage clause: every e-mode entry's implied leverage l/(l-w) against THIS bank's
+/// liability weights stays within the group's caps (exact rational arithmetic, with a 1e-6 relative margin for the
+/// program's fixed-point rounding exactly at the cap)
+fn incoherent_with_caps(b: &Bank, g: &marginfi_type_crate::types::MarginfiGroup) -> Option<String> {
+    if let Some(w) = incoherent(b) {
+        return Some(w);
+    }
+    use num_bigint::BigInt;
+    let (li, lm) = (w(b.config.liability_weight_init), w(b.config.liability_weight_maint));
+    // cap = v * 100 / u32::MAX
+    let caps = [(g.emode_max_init_leverage as u64, li, true), (g.emode_max_maint_leverage as u64, lm, false)];
+    for e in b.emode.emode_config.entries.iter().filter(|e| e.collateral_bank_emode_tag != 0) {
+        for (cap_raw, l, init) in caps {
+            if cap_raw == 0 {
+                continue;
+            }
+            let wv = if init { w(e.asset_weight_init) } else { w(e.asset_weight_maint) };
+            if wv >= l {
+                return Some(format!("emode-entry-vs-liability-weights: entry tag {} weight {} not below liability weight {}", e.collateral_bank_emode_tag, wv, l));
+            }
+            // l/(l-w) > cap*(1+1e-6)  <=>  l * u32max * 10^6 > cap_raw*100*(l-w)*(10^6+1)
+            let lhs = BigInt::from(l) * BigInt::from(u32::MAX) * BigInt::from(1_000_000u64);
+            let rhs = BigInt::from(cap_raw) * BigInt::from(100u64) * BigInt::from(l - wv) * BigInt::from(1_000_001u64);
+            if lhs > rhs {
+                return Some(format!(
+                    "emode-leverage-cap: entry tag {} ({} weight {}) against liability weight {} implies leverage above the group's cap ({} %)",
+                    e.collateral_bank_emode_tag, if init { "init" } else { "maint" }, wv, l, (cap_raw as f64) * 100.0 / (u32::MAX as f64) * 100.0
+                ));
+            }
+        }
+    }
+    None
+}
+
 fn incoherent(b: &Bank) -> Option<String> {
     let c = &b.config;
     let (ai, am, li, lm) = (w(c.asset_weight_init), w(c.asset_weight_maint), w(c.liability_weight_init), w(c.liability_weight_maint));
@@ -103,7 +137,7 @@ pub fn run(rng: &mut Rng, n: usize, rep: &mut Report) {
                     b.flags &= !marginfi_type_crate::constants::FREEZE_SETTINGS;
                     s.w.set_bank(&h0.bank, &b);
                 }
-                if let Some(why) = incoherent(&post) {
+                if let Some(why) = incoherent_with_caps(&post, &s.w.group(&s.group)) {
                     rep.fail(format!("configure_bank accepted an incoherent configuration: {}; opt [{}]", why, og.line));
                 }
                 if (post.config.operational_state == BankOperationalState::KilledByBankruptcy) != (pre.config.operational_state == BankOperationalState::KilledByBankruptcy) {
@@ -118,7 +152,7 @@ pub fn run(rng: &mut Rng, n: usize, rep: &mut Report) {
             rep.bump("cases");
             if r.is_ok() {
                 rep.bump("emode_ok");
-                if let Some(why) = incoherent(&s.w.bank(&h0.bank)) {
+                if let Some(why) = incoherent_with_caps(&s.w.bank(&h0.bank), &s.w.group(&s.group)) {
                     rep.fail(format!("configure_bank_emode accepted an incoherent configuration: {}", why));
                 }
             }
@@ -144,6 +178,116 @@ pub fn run(rng: &mut Rng, n: usize, rep: &mut Report) {
                 rep.bump("clone_ok");
                 if let Some(why) = incoherent(&s.w.bank(&h1.bank)) {
                     rep.fail(format!("clone-emode-unvalidated: lending_pool_clone_emode left the destination bank with an incoherent configuration: {}", why));
+                }
+            }
+        }
+        // ---- directed: a bank that HOLDS a valid high-weight e-mode entry must not be allowed to lower its liability weights
+        //      under it (full configure re-validates the stored entries against the NEW weights)
+        for _ in 0..4 {
+            let mut w2 = s.w.clone();
+            // roomy liability weights first, then the entry, through the real instructions
+            let ok1 = w2.exec(&ix::configure_bank(&h0, s.admin, marginfi_type_crate::types::BankConfigOpt {
+                liability_weight_init: Some(I80F48::from_num(1.5).into()),
+                liability_weight_maint: Some(I80F48::from_num(1.4).into()),
+                ..Default::default()
+            })).is_ok();
+            let wi = ONE * 80 / 100 + rng.below(ONE as u64 * 45 / 100) as i128; // 0.80 .. 1.25
+            let wm = wi + rng.below(ONE as u64 / 50) as i128;
+            let mut entries = [EmodeEntry { collateral_bank_emode_tag: 0, flags: 0, pad0: [0; 5], asset_weight_init: I80F48::ZERO.into(), asset_weight_maint: I80F48::ZERO.into() }; 10];
+            entries[0] = EmodeEntry { collateral_bank_emode_tag: 9, flags: 0, pad0: [0; 5], asset_weight_init: I80F48::from_bits(wi).into(), asset_weight_maint: I80F48::from_bits(wm).into() };
+            let ok2 = w2.exec(&emode_ix(s.group, s.admin, h0.bank, 3, entries)).is_ok();
+            if !(ok1 && ok2) {
+                rep.bump("directed_setup_refused");
+                continue;
+            }
+            // now ask for liability weights around the entry's weights / around the leverage cap
+            let lm = (wm + rng.range(-(ONE as i64 / 20), ONE as i64 / 10) as i128).max(ONE);
+            let li = lm + rng.below(ONE as u64 / 20) as i128;
+            let r = w2.exec(&ix::configure_bank(&h0, s.admin, marginfi_type_crate::types::BankConfigOpt {
+                liability_weight_init: Some(I80F48::from_bits(li).into()),
+                liability_weight_maint: Some(I80F48::from_bits(lm).into()),
+                ..Default::default()
+            }));
+            cells += 1;
+            rep.bump("cases");
+            rep.bump(if r.is_ok() { "directed_lower_ok" } else { "directed_lower_refused" });
+            if r.is_ok() {
+                if let Some(why) = incoherent_with_caps(&w2.bank(&h0.bank), &w2.group(&s.group)) {
+                    rep.fail(format!("configure_bank lowered the liability weights under a stored e-mode entry: {} (entry {} / {}, new liability weights {} / {})", why, wi, wm, li, lm));
+                }
+            }
+        }
+        // ---- staked-settings propagation (real edit_staked_settings + the permissionless propagate_staked_settings):
+        //      whatever ends up in the bank must be a coherent configuration
+        {
+            use marginfi_type_crate::types::{StakedSettings, WrappedI80F48};
+            let key = s.w.new_key();
+            let oracle = s.w.new_key();
+            let mut st: StakedSettings = bytemuck::Zeroable::zeroed();
+            st.key = key;
+            st.marginfi_group = s.group;
+            st.oracle = oracle;
+            st.asset_weight_init = I80F48::from_num(0.8).into();
+            st.asset_weight_maint = I80F48::from_num(0.9).into();
+            st.deposit_limit = 1_000_000_000_000;
+            st.oracle_max_age = 60;
+            st.risk_tier = RiskTier::Collateral;
+            s.w.put_zc(key, &st);
+            // bank 1 becomes a staked-collateral bank that already uses the settings' oracle (so that propagation does not
+            // re-validate the oracle accounts, which would need a stake pool)
+            let mut bk = s.w.bank(&h1.bank);
+            bk.config.asset_tag = marginfi_type_crate::constants::ASSET_TAG_STAKED;
+            bk.config.oracle_keys[0] = oracle;
+            s.w.set_bank(&h1.bank, &bk);
+            for _ in 0..12 {
+                let wgt = |rng: &mut Rng| -> Option<WrappedI80F48> {
+                    match rng.below(6) {
+                        0 => None,
+                        1 => Some(I80F48::from_bits(rng.below(ONE as u64 + 2) as i128).into()),
+                        2 => Some(I80F48::from_bits((ONE as i128) + rng.range(-2, 2) as i128).into()),
+                        3 => Some(I80F48::from_bits(2 * (ONE as i128) + rng.range(-2, 2) as i128).into()),
+                        4 => Some(I80F48::from_bits(rng.range(-3, 3) as i128).into()),
+                        _ => Some(I80F48::from_bits(rng.below(3 * ONE as u64) as i128).into()),
+                    }
+                };
+                let edit = marginfi::instructions::marginfi_group::StakedSettingsEditConfig {
+                    oracle: None,
+                    asset_weight_init: wgt(rng),
+                    asset_weight_maint: wgt(rng),
+                    deposit_limit: if rng.chance(1, 2) { Some(rng.u64_mixed()) } else { None },
+                    total_asset_value_init_limit: if rng.chance(1, 2) { Some(rng.u64_mixed()) } else { None },
+                    oracle_max_age: match rng.below(4) { 0 => None, 1 => Some(rng.below(12) as u16), 2 => Some(*rng.pick(&[0u16, 9, 10, 11, 60, u16::MAX])), _ => Some(rng.below(700) as u16) },
+                    risk_tier: match rng.below(4) { 0 => Some(RiskTier::Isolated), 1 => Some(RiskTier::Collateral), _ => None },
+                };
+                let e_ix = Instruction {
+                    program_id: marginfi::ID,
+                    accounts: marginfi::accounts::EditStakedSettings { marginfi_group: s.group, admin: s.admin, staked_settings: key }.to_account_metas(None),
+                    data: marginfi::instruction::EditStakedSettings { settings: edit }.data(),
+                };
+                let r1 = s.w.exec(&e_ix);
+                rep.bump(if r1.is_ok() { "staked_edit_ok" } else { "staked_edit_refused" });
+                let p_ix = Instruction {
+                    program_id: marginfi::ID,
+                    accounts: marginfi::accounts::PropagateStakedSettings { marginfi_group: s.group, staked_settings: key, bank: h1.bank }.to_account_metas(None),
+                    data: marginfi::instruction::PropagateStakedSettings {}.data(),
+                };
+                let before = s.w.accounts.clone();
+                let r2 = s.w.exec(&p_ix);
+                cells += 1;
+                rep.bump("cases");
+                match r2 {
+                    Ok(()) => {
+                        rep.bump("staked_propagate_ok");
+                        if let Some(why) = incoherent(&s.w.bank(&h1.bank)) {
+                            rep.fail(format!("propagate_staked_settings left the bank with an incoherent configuration: {}", why));
+                        }
+                    }
+                    Err(_) => {
+                        rep.bump("staked_propagate_refused");
+                        if s.w.accounts != before {
+                            rep.fail("a refused propagate_staked_settings changed the account store".to_string());
+                        }
+                    }
                 }
             }
         }
